@@ -60,7 +60,12 @@ def random_affine(rng, dim, amp=0.3):
             break
     A = random_rotation(rng, dim) @ A
     t = rng.uniform(-1, 1, dim)
-    return A, t
+    # the length unit is arbitrary: a third of the affine maps shrink the body to millimetres, a third blow it up
+    s = [1.0, 1.0, 4e-3, 250.0][int(rng.integers(0, 4))] if SCALE_AFFINE else 1.0
+    return s * A, s * t
+
+
+SCALE_AFFINE = True
 
 
 def smooth_map(rng, dim, eps=0.2):
